@@ -512,6 +512,7 @@ def replay_c15(case, doc, obs):
             if sc == "undecodable":
                 faulted, ff = True, bad
                 fixed_alone[bad] = None
+                other_alone = None
             elif sc == "plugin-fault":
                 faulted, ff = R.FAULTED, (sb.vpath(R.FAULT_FILE) if R.FAULT_FILE else None)
             else:
